@@ -80,7 +80,7 @@ theorem inv7_step {c : Cfg} (hw : c.wiring = Wiring.std) (hwf : WfCfg c) {s s' :
     exact inv7_frame (es := [Ev.waitReturned [.ctxErr]]) h rfl rfl rfl (by simp [Ev.errEntry])
   | callerRetFin =>
     obtain ⟨_, _, _, rfl⟩ := inv_callerRetFin hs
-    exact inv7_frame (es := [Ev.waitReturned (retVal s)]) h rfl rfl rfl (by simp [Ev.errEntry])
+    exact inv7_frame (es := [Ev.waitReturned (retVal c s)]) h rfl rfl rfl (by simp [Ev.errEntry])
   | loopDrain =>
     obtain ⟨_, _, _, _, rfl⟩ := inv_loopDrain hw hs
     exact inv7_frame (es := []) h rfl rfl (by simp) (by simp)
@@ -92,10 +92,10 @@ theorem inv7_step {c : Cfg} (hw : c.wiring = Wiring.std) (hwf : WfCfg c) {s s' :
     · exact inv7_frame (es := [Ev.started j]) h rfl rfl rfl (by simp [Ev.errEntry])
   | workerEnd w o cancel =>
     obtain ⟨j, _, rfl⟩ := inv_workerEnd hs
-    have hab : (afterBody s j o cancel).loop = s.loop ∧ (afterBody s j o cancel).caller = s.caller ∧
-        ∃ es, (afterBody s j o cancel).log = s.log ++ es ∧ ∀ e ∈ es, e.errEntry = none := by
+    have hab : (afterBody c s j o cancel).loop = s.loop ∧ (afterBody c s j o cancel).caller = s.caller ∧
+        ∃ es, (afterBody c s j o cancel).log = s.log ++ es ∧ ∀ e ∈ es, e.errEntry = none := by
       unfold afterBody; split
-      · exact ⟨rfl, rfl, [Ev.ended j o, Ev.cancelled], by simp, by simp [Ev.errEntry]⟩
+      · exact ⟨rfl, rfl, [Ev.ended j o, Ev.cancelled (c.ctxOfJob j)], by simp, by simp [Ev.errEntry]⟩
       · exact ⟨rfl, rfl, [Ev.ended j o], by simp, by simp [Ev.errEntry]⟩
     obtain ⟨hl, hcl, es, hlog, hes⟩ := hab
     exact inv7_frame (es := es) h (by simp [hl]) (by simp [hcl]) (by simp [hlog]) hes
@@ -109,8 +109,8 @@ theorem inv7_step {c : Cfg} (hw : c.wiring = Wiring.std) (hwf : WfCfg c) {s s' :
     obtain ⟨_, _, rfl⟩ := inv_workerExit hs
     exact inv7_frame (es := []) h rfl rfl (by simp) (by simp)
   | cancel =>
-    obtain ⟨_, rfl⟩ := inv_cancel hs
-    exact inv7_frame (es := [Ev.cancelled]) h rfl rfl rfl (by simp [Ev.errEntry])
+    obtain ⟨_, _, rfl⟩ := inv_cancel hs
+    exact inv7_frame (es := [Ev.cancelled _]) h rfl rfl rfl (by simp [Ev.errEntry])
   | loopClose =>
     obtain ⟨hp, _, _, rfl⟩ := inv_loopClose hw hs
     obtain ⟨g1, g2, g3, g4, g5⟩ := h
